@@ -823,7 +823,7 @@ func hammer(kind string, seed, n int) map[string]string {
 		h := newHx(kind, 3)
 		h.run()
 		const G = 4
-		per := 400 * n
+		per := 2000 * n
 		ran := make([]int32, G*per)
 		var wg sync.WaitGroup
 		for g := 0; g < G; g++ {
@@ -868,7 +868,7 @@ func hammer(kind string, seed, n int) map[string]string {
 		waitExit(h, "after parallel load and Stop the lane goroutines are still alive")
 	}
 	// ---- B: Stop racing with the consumer going idle
-	for round := 0; round < 150*n; round++ {
+	for round := 0; round < 500*n; round++ {
 		h := newHx(kind, 1)
 		h.run()
 		for j := 0; j <= round%3; j++ {
@@ -1302,6 +1302,14 @@ func runInChild(lines []string, n int) corr.Result {
 }
 
 func runCase(c corr.Case) corr.Result {
+	if os.Getenv("C14_SLOW") != "" {
+		t0 := time.Now()
+		defer func() {
+			if d := time.Since(t0); d > 150*time.Millisecond {
+				fmt.Fprintf(os.Stderr, "SLOW %v %s %v\n", d, c.Tag, c.Lines)
+			}
+		}()
+	}
 	var res corr.Result
 	n, oneP := amplify(c.Tag, c.Lines)
 	if oneP {
